@@ -1,5 +1,6 @@
 import Bifrost.Lemmas.EnvelopeField
 import Bifrost.Lemmas.EnvelopeToy
+import Bifrost.Lemmas.EnvelopeId
 /-!
 C18 — Envelopes resist tampering and are bound to their context. Property theorems only.
 `unlock` models `UnlockEnvelope` as fixed (share IDs de-duplicated on the canonical scalar
@@ -55,6 +56,35 @@ theorem context_bound (hP : PrimsSecure P)
       unlock P (fieldScalars K dec enc) ctx' env sks =
         .locked { success := false, sharesAvailable := 0, sharesNeeded := cfg.threshold + 1, unlockedGrantIndexes := [] } :=
   unlock_other_ctx P hP _ secret coeff nonce ctx payload keypairs cfg env hb hw ctx' hne sks
+
+/-- **Which id a sealed envelope carries**: the `EnvelopeId` of the configuration when it is not
+empty, otherwise the id derived from the secret and the context (`idHash` = the lower-case hex of
+the first 16 bytes of BLAKE3(secret ‖ context); operands and length are regenerated facts,
+`Ties.EnvelopeFacts`). -/
+theorem envelope_id_of_build
+    (hb : build P (fieldScalars K dec enc) secret coeff nonce ctx payload keypairs cfg = .ok env) :
+    env.envelopeId = if cfg.envelopeId.isEmpty then P.idHash (enc secret) ctx else cfg.envelopeId :=
+  build_envelopeId P _ secret coeff nonce ctx payload keypairs cfg env hb
+
+/-- **The grants are bound to THAT id**: a sealed envelope re-labelled with any other id reaches
+no share at all under the right context, whatever keys are offered (the grant encryption
+contexts embed the length-prefixed id; no hash assumption). -/
+theorem id_bound (hP : PrimsSecure P)
+    (hb : build P (fieldScalars K dec enc) secret coeff nonce ctx payload keypairs cfg = .ok env)
+    (hw : cfg.totalShares < 2 ^ 32) (id' : Bytes) (hne : id' ≠ env.envelopeId) (sks : List Bytes) :
+    unlock P (fieldScalars K dec enc) ctx { env with envelopeId := id' } sks =
+      .locked { success := false, sharesAvailable := 0, sharesNeeded := cfg.threshold + 1, unlockedGrantIndexes := [] } :=
+  unlock_relabel P hP _ secret coeff nonce ctx payload keypairs cfg env hb hw id' hne sks
+
+/-- … and more generally the grants of a sealed envelope, carried by ANY envelope with another id
+(threshold, keypairs, ciphertext, context hash replaced at will) or unsealed under another
+context, never open anything. -/
+theorem foreign_id_never_opens (hP : PrimsSecure P)
+    (hb : build P (fieldScalars K dec enc) secret coeff nonce ctx payload keypairs cfg = .ok env)
+    (env' : Envelope) (hg : env'.grants = env.grants) (ctx' : Bytes)
+    (hne : env'.envelopeId ≠ env.envelopeId ∨ ctx' ≠ ctx) (sks : List Bytes) (p : Bytes) (r : UnlockResult) :
+    unlock P (fieldScalars K dec enc) ctx' env' sks ≠ .opened p r :=
+  unlock_foreign_binding_not_opened P hP _ secret coeff nonce ctx payload keypairs cfg env hb env' hg ctx' hne sks p r
 
 /-- **Tampering with anything but the payload ciphertext**: let `env'` be ANY envelope that still
 carries the sealed payload ciphertext — threshold, grants (keypair indexes, ciphertexts, order,
@@ -205,5 +235,40 @@ example : ∃ env,
       exact tamper_threshold z251Decode z251Encode toyPrims 5 _ _ [1] [2, 3] [[10], [11]] exCfg env toyPrims_secure hb'
         (by decide) 0 [[10]] p r hu
     · exact context_mismatch z251Decode z251Encode toyPrims 5 _ _ [1] [2, 3] [[10], [11]] exCfg env hb' [2] (by decide) _
+
+/-! Non-vacuity of the id theorems: a configuration with an explicit id is sealed with that id,
+one without gets the derived id, and the re-labelled envelope is locked with no share reachable
+although every recipient key is offered. -/
+
+def exCfgId : Config := { envelopeId := [105, 100], threshold := 1, grants := [⟨1, [0]⟩, ⟨1, [1]⟩] }
+
+example : ∃ env env₀,
+    build toyPrims z251 5 (fun i => (i : ZMod 251) + 3) (List.replicate 24 9) [1] [2, 3] [[10], [11]] exCfgId = .ok env ∧
+    env.envelopeId = [105, 100] ∧
+    build toyPrims z251 5 (fun i => (i : ZMod 251) + 3) (List.replicate 24 9) [1] [2, 3] [[10], [11]] exCfg = .ok env₀ ∧
+    env₀.envelopeId = toyPrims.idHash (z251Encode 5) [1] ∧
+    unlock toyPrims z251 [1] { env with envelopeId := [105] } [[10], [11]] =
+      .locked { success := false, sharesAvailable := 0, sharesNeeded := 2, unlockedGrantIndexes := [] } := by
+  have hok : (build toyPrims z251 5 (fun i => (i : ZMod 251) + 3) (List.replicate 24 9) [1] [2, 3] [[10], [11]] exCfgId).isOk = true := by
+    decide
+  have hok0 : (build toyPrims z251 5 (fun i => (i : ZMod 251) + 3) (List.replicate 24 9) [1] [2, 3] [[10], [11]] exCfg).isOk = true := by
+    decide
+  cases hb : build toyPrims z251 5 (fun i => (i : ZMod 251) + 3) (List.replicate 24 9) [1] [2, 3] [[10], [11]] exCfgId with
+  | err e => rw [hb] at hok; cases hok
+  | panic => rw [hb] at hok; cases hok
+  | ok env =>
+    cases hb0 : build toyPrims z251 5 (fun i => (i : ZMod 251) + 3) (List.replicate 24 9) [1] [2, 3] [[10], [11]] exCfg with
+    | err e => rw [hb0] at hok0; cases hok0
+    | panic => rw [hb0] at hok0; cases hok0
+    | ok env₀ =>
+      have hb' := hb
+      have hb0' := hb0
+      rw [show z251 = fieldScalars (ZMod 251) z251Decode z251Encode from rfl] at hb' hb0'
+      have hid := envelope_id_of_build z251Decode z251Encode toyPrims 5 _ _ [1] [2, 3] [[10], [11]] exCfgId env hb'
+      have hid0 := envelope_id_of_build z251Decode z251Encode toyPrims 5 _ _ [1] [2, 3] [[10], [11]] exCfg env₀ hb0'
+      refine ⟨env, env₀, rfl, hid, rfl, hid0, ?_⟩
+      have := id_bound z251Decode z251Encode toyPrims 5 _ _ [1] [2, 3] [[10], [11]] exCfgId env toyPrims_secure hb'
+        (by decide) [105] (by rw [hid]; decide) [[10], [11]]
+      exact this
 
 end Bifrost.Props.C18
